@@ -143,6 +143,24 @@ def shutdown_waits_for_callbacks(ctx):
     cn = (q.names_defined_by(s, lambda v: isinstance(v, ast.Call) and norm(v.func) == 'CRTTransferCoordinator') or ['coordinator'])[0]
     app = [x for c in own_calls(s.node) if (dotted(c.func) or '') == 'self._future_coordinators.append' and norm(c.args[0]) == cn for x in g.nodes_of(c)]
     ctx.ob(s, 'self._future_coordinators.append(coordinator) on every normal path', bool(app) and g.must_pass([g.entry], app, [g.exit], None), 'an untracked transfer is not waited for at shutdown')
+    # the tracking list only grows: nothing removes or replaces entries outside __init__ (a coordinator
+    # whose future is resolved may still be running its done callbacks - done() says nothing about them)
+    mgr = ctx.cls('crt.CRTTransferManager')
+    for m in mgr.methods.values():
+        if m.name == '__init__':
+            continue
+        for n in own_nodes(m.node):
+            bad = None
+            if isinstance(n, (ast.Assign, ast.AugAssign, ast.Delete)):
+                tg = n.targets if isinstance(n, (ast.Assign, ast.Delete)) else [n.target]
+                if any('self._future_coordinators' in norm(t) for t in tg):
+                    bad = n
+            elif isinstance(n, ast.Call) and isinstance(n.func, ast.Attribute) and norm(n.func.value) == 'self._future_coordinators' \
+                    and n.func.attr in ('remove', 'pop', 'clear', 'sort', 'reverse', 'insert', 'extend'):
+                bad = n
+            if bad is not None:
+                ctx.ob(m, bad, False, 'a tracked coordinator dropped before its done callbacks completed is not waited for by shutdown')
+    ctx.ob(mgr.qualname, '_future_coordinators is only appended to after __init__', True, 'tracking list integrity', trivial=True)
     c = ctx.cls('crt.CRTTransferCoordinator')
     sd = c.methods['set_done_callbacks_complete']
     wt = c.methods['wait_until_on_done_callbacks_complete']
